@@ -1,7 +1,24 @@
 (* model driver for C19 *)
 open Common
 let nn s = n_of_int (int_of_string s)
+(* packets of every type from the wire-format universe (same generator as C05), as raw material for
+   the 'declared but not supplied' probes *)
+let rnd_list (seed : int) (n : int) : BinNums.coq_N list =
+  let s = ref (seed * 0x9E3779B97F4A7C + 0x1234567) in
+  let next () =
+    s := !s + 0x1E3779B97F4A7C15;
+    let z = ref !s in
+    z := (!z lxor (!z lsr 30)) * 0xBF58476D1CE4E5B;
+    z := (!z lxor (!z lsr 27)) * 0x94D049BB133111E;
+    z := !z lxor (!z lsr 31);
+    (!z lsr 8) land 0xFFFFFFFF in
+  Stdlib.List.init n (fun _ -> n_of_int (next ()))
+
 let handle = function
+  | ["gen"; tag; seed] ->
+    let f = Packets.body_fmt (nn tag) in
+    let (v, _) = Fmt.gen f (rnd_list (int_of_string seed) 4000) in
+    (match Wire.packet (nn tag) v with Some p -> hex_of_bytes p | None -> "NONE")
   | ["argon"; t; p; m] -> str_of_bool (Cost.argon2_allowed (nn t) (nn p) (nn m))
   | ["iter"; c] -> string_of_int (int_of_n (Kdf.decode_count (nn c)))
   | ["take"; size; chunks] ->
